@@ -38,7 +38,8 @@ def run(chk: Check):
                 'reopened and the directory listed.  Non-trivial = a rejected addition that is observed afterwards, or a '
                 'refused / interrupted merge')
     gen = [{'name': f'gen:{i}', 'ops': su.gen_history(chk.rng, 'C10')} for i in range(chk.n(110, 1500))]
-    scen = su.refusal_scenarios() + su.first_op_schema_scenarios() + su.crash_scenarios(chk.n(3, 4))
+    scen = (su.refusal_scenarios() + su.first_op_schema_scenarios() + su.rejected_first_add_scenarios()
+            + su.crash_scenarios(chk.n(3, 4)))
     chk.exhaustive = True        # crash points: every call of every merge shape listed in the rule
     su.run_property(chk, 'C10', PROPS, gen, nontrivial, scenarios=scen)
 
